@@ -135,7 +135,7 @@ func genConc(svc string, r *hx.Rand, nsrc int) Input {
 	return in
 }
 
-func coqConcCase(id int, in Input, obs []ConcObs) string {
+func coqConcCase(id int, in Input, obs []ConcObs, elapsed int64) string {
 	oracle := 0
 	for _, o := range obs {
 		if o.Reached {
@@ -146,8 +146,8 @@ func coqConcCase(id int, in Input, obs []ConcObs) string {
 	for _, o := range obs {
 		rows = append(rows, fmt.Sprintf("(%s, %s)", hx.CoqZ(int64(in.N+in.After)), hx.CoqZ(int64(o.Conc+o.After))))
 	}
-	return fmt.Sprintf("CX (mkX %s %s (mkD (@nil N) 0 0 (@nil Z) %s %s) %s)", hx.CoqN(uint64(id)), svcCoq[in.Svc],
-		hx.CoqN(uint64(oracle)), coqPacked(in.Payload), hx.CoqList(rows, "(Z * Z)"))
+	return fmt.Sprintf("CX (mkX %s %s (mkD (@nil N) 0 0 (@nil Z) %s %s) %s %s)", hx.CoqN(uint64(id)), svcCoq[in.Svc],
+		hx.CoqN(uint64(oracle)), coqPacked(in.Payload), hx.CoqZ(elapsed), hx.CoqList(rows, "(Z * Z)"))
 }
 
 // Concurrent handling can end the whole process (e.g. "fatal error: concurrent map read
@@ -156,8 +156,10 @@ func coqConcCase(id int, in Input, obs []ConcObs) string {
 // as a crash and a new child continues with the rest.
 
 type concResult struct {
-	Obs   []ConcObs `json:"obs"`
-	Crash string    `json:"crash"`
+	Obs       []ConcObs `json:"obs,omitempty"`
+	Flood     *FloodObs `json:"flood,omitempty"`
+	ElapsedNs int64     `json:"elapsed_ns"`
+	Crash     string    `json:"crash"`
 }
 
 func concChild() {
@@ -168,8 +170,14 @@ func concChild() {
 	w := bufio.NewWriter(os.Stdout)
 	enc := json.NewEncoder(w)
 	for _, in := range ins {
-		obs, crash := runConc(in)
-		enc.Encode(concResult{Obs: obs, Crash: crash})
+		start := time.Now()
+		if in.Part == "flood" {
+			ob, crash := runFlood(in)
+			enc.Encode(concResult{Flood: &ob, ElapsedNs: ob.ElapsedNs, Crash: crash})
+		} else {
+			obs, crash := runConc(in)
+			enc.Encode(concResult{Obs: obs, ElapsedNs: time.Since(start).Nanoseconds(), Crash: crash})
+		}
 		w.Flush()
 	}
 }
@@ -210,7 +218,7 @@ func runConcAll(ins []Input) []concResult {
 				break
 			}
 		}
-		out = append(out, concResult{Obs: make([]ConcObs, len(rest[n].Srcs)), Crash: why})
+		out = append(out, concResult{Obs: make([]ConcObs, len(rest[n].Srcs)), Flood: &FloodObs{}, Crash: why})
 	}
 	return out
 }
